@@ -59,13 +59,44 @@ EndEv(ev) ==
                   ELSE PrintT(<<"RUN", ev.run, "unbounded", pivots>>)
              [] ev.outcome = "inner" ->
                   IF ~Optimal THEN Rej(ev, "inner (phase 1) solve returned without reaching an optimal tableau")
+                  ELSE IF ev.mode = "phase1" /\ z # 0 THEN Rej(ev, "phase 1 ended with a positive artificial sum but a tableau was built")
                   ELSE PrintT(<<"RUN", ev.run, "inner", pivots>>)
+             [] ev.outcome = "infeasible" ->
+                  IF ~Optimal THEN Rej(ev, "infeasible reported before phase 1 reached its optimum")
+                  ELSE IF z = 0 THEN Rej(ev, "infeasible reported although the phase-1 optimum is 0")
+                  ELSE PrintT(<<"RUN", ev.run, "infeasible", pivots>>)
              [] ev.outcome = "limit" ->
                   IF ev.mode = "manual" THEN PrintT(<<"RUN", ev.run, "cut", pivots>>)
                   ELSE Rej(ev, "iteration limit reached on a small problem")
              [] OTHER -> Rej(ev, "solver error " \o ev.outcome)
 
+\* canon: the canonical tableau built by into_tableau (two-phase start) against the
+\* standard form it came from: unit basis, feasibility, every standard-form row lies
+\* in the row space of the tableau (no constraint lost), reduced costs and value are
+\* those of the standard-form objective
+CanonProblems(ev) ==
+   LET m == Len(ev.A)
+       n == Len(ev.c)
+       st == ev.std
+       f(F(_)) == SumK(F, 1, m)
+   IN  (IF \E k \in 1..m : ev.A[k][ev.basis[k]] # ev.D \/ ev.c[ev.basis[k]] # 0 \/ \E i \in (1..m) \ {k} : ev.A[i][ev.basis[k]] # 0
+        THEN {"basis columns are not unit columns"} ELSE {})
+       \cup (IF \E k \in 1..m : ev.b[k] < 0 THEN {"negative right-hand side"} ELSE {})
+       \cup (IF Len(st.c) # n THEN {"column count differs from the standard form"} ELSE
+             (IF \E r \in 1..Len(st.A) :
+                   \/ \E j \in 1..n : LET F(k) == st.A[r][ev.basis[k]] * ev.A[k][j] IN st.A[r][j] * ev.D # f(F)
+                   \/ LET F(k) == st.A[r][ev.basis[k]] * ev.b[k] IN st.b[r] * ev.D # f(F)
+              THEN {"a standard-form row is not implied by the tableau rows (constraint lost)"} ELSE {})
+             \cup (IF \E j \in 1..n : LET F(k) == st.c[ev.basis[k]] * ev.A[k][j] IN ev.c[j] * st.D # st.c[j] * ev.D - f(F)
+                   THEN {"reduced costs are not those of the standard-form objective"} ELSE {})
+             \cup (IF LET F(k) == st.c[ev.basis[k]] * ev.b[k] IN ev.z * st.D # -f(F)
+                   THEN {"tableau value is not the objective of the basic solution"} ELSE {}))
+CanonEv(ev) == /\ Stutter /\ UNCHANGED lost
+               /\ LET pb == CanonProblems(ev) IN
+                  IF pb = {} THEN PrintT(<<"RUN", ev.run, "canon", 0>>) ELSE Rej(ev, CHOOSE x \in pb : TRUE)
+
 Step(ev) == CASE ev.kind = "begin" -> Begin(ev)
+              [] ev.kind = "canon" -> CanonEv(ev)
               [] ev.kind = "pivot" -> PivotEv(ev)
               [] ev.kind = "end" -> EndEv(ev)
 
